@@ -509,10 +509,11 @@ Qed.
 Lemma sstep_frame ss o ss' r k :
   sstep ss o = Some (ss', r, k) -> forall k', k' <> k -> k' < length ss -> nth_error ss' k' = nth_error ss k'.
 Proof.
-  intros H k' N L. destruct o as [k0 o|k0 mode|k0 v]; cbn in H; destruct (nth_error ss k0) as [s|]; try discriminate.
+  intros H k' N L. destruct o as [k0 o|k0 mode|k0 v|k0 w j]; cbn in H; destruct (nth_error ss k0) as [s|]; try discriminate.
   - destruct (tstep (s_tour s) o) as [[t' r']|]; [|discriminate]. inversion H; subst. apply set_nth_other; auto.
   - inversion H; subst. apply nth_error_app1; auto.
   - inversion H; subst. apply set_nth_other; auto.
+  - inversion H; subst. reflexivity.
 Qed.
 Lemma sstep_copy ss k mode ss' r n :
   sstep ss (SCopy k mode) = Some (ss', r, n) ->
@@ -527,7 +528,8 @@ Qed.
 Lemma sstep_wf ss o ss' r k :
   Forall (fun s => WFweak (s_tour s)) ss -> sstep ss o = Some (ss', r, k) -> Forall (fun s => WFweak (s_tour s)) ss'.
 Proof.
-  intros F H. destruct o as [k0 o|k0 mode|k0 v]; cbn in H; destruct (nth_error ss k0) as [s|] eqn:E; try discriminate.
+  intros F H. destruct o as [k0 o|k0 mode|k0 v|k0 w j]; cbn in H; destruct (nth_error ss k0) as [s|] eqn:E; try discriminate;
+    [| | |inversion H; subst; auto].
   - destruct (tstep (s_tour s) o) as [[t' r']|] eqn:S; [|discriminate]. inversion H; subst.
     apply set_nth_Forall; auto. cbn. eapply wfweak_step; eauto.
     rewrite Forall_forall in F. apply F. eapply nth_error_In; eauto.
@@ -1030,6 +1032,59 @@ Proof.
     destruct (hstep_inv c (HSlice keep) _ false 0 _ C eq_refl) as [[W _] _]. auto.
 Qed.
 
+(* ================================================================== read-only accessors agree with the job set *)
+Lemma find_idx_some f l : forall i, find_idx f i l <> None <-> exists a, In a l /\ f a = true.
+Proof.
+  induction l as [|a l IH]; intros i; cbn.
+  - split; [congruence|intros [a [[] _]]].
+  - destruct (f a) eqn:E.
+    + split; [intros _; exists a; auto|discriminate].
+    + rewrite IH. split; intros [b [Hb Fb]]; [exists b; auto|].
+      destruct Hb as [<-|Hb]; [congruence|exists b; auto].
+Qed.
+Lemma find_last_some f l : forall i acc, find_last f i l acc <> None <-> acc <> None \/ exists a, In a l /\ f a = true.
+Proof.
+  induction l as [|a l IH]; intros i acc; cbn.
+  - split; [auto|intros [H|[a [[] _]]]; auto].
+  - rewrite IH. destruct (f a) eqn:E.
+    + split; [intros _; right; exists a; auto|intros _; left; discriminate].
+    + split.
+      * intros [H|[b [Hb Fb]]]; auto. right; exists b; auto.
+      * intros [H|[b [Hb Fb]]]; [left; auto|]. destruct Hb as [<-|Hb]; [congruence|]. right; exists b; auto.
+Qed.
+Lemma filter_nonempty {A} (f : A -> bool) l : filter f l <> [] <-> exists a, In a l /\ f a = true.
+Proof.
+  split.
+  - intros H. destruct (filter f l) as [|a r] eqn:E; [congruence|]. exists a. apply filter_In. rewrite E. left; auto.
+  - intros [a Ha] E. apply filter_In in Ha. rewrite E in Ha. contradiction.
+Qed.
+Lemma contains_iff t j : jobs_ok t -> (contains t j = true <-> exists a, In a (t_acts t) /\ has_same_job a j = true).
+Proof.
+  intros [_ J]. unfold contains. rewrite set_mem_In, J. split; intros [a [Ha E]]; exists a; split; auto; apply has_same_job_iff; auto.
+Qed.
+Lemma query_consistent t j : jobs_ok t ->
+  (contains t j = true <-> tindex t j <> None) /\ (contains t j = true <-> tindex_last t j <> None) /\
+  (contains t j = true <-> job_activities t j <> []).
+Proof.
+  intros J. pose proof (contains_iff t j J) as C. unfold tindex, tindex_last, job_activities.
+  rewrite find_idx_some, find_last_some, filter_nonempty. intuition congruence.
+Qed.
+Lemma filter_all {A} (f : A -> bool) l : (forall a, In a l -> f a = true) -> filter f l = l.
+Proof.
+  induction l as [|a l IH]; intros H; cbn; auto. rewrite (H a) by (left; auto). f_equal. apply IH. intros; apply H; right; auto.
+Qed.
+(* removing a job that is not a job of the tour (e.g. a sub-job of a Multi wrapped as a Single) is a no-op *)
+Lemma remove_nonmember t j : jobs_ok t -> contains t j = false -> remove t j = (t, false).
+Proof.
+  intros J C. pose proof (contains_iff t j J) as CI. rewrite C in CI. unfold remove. unfold contains in C. rewrite C.
+  assert (NA : forall a, In a (t_acts t) -> has_same_job a j = false).
+  { intros a Ha. destruct (has_same_job a j) eqn:E; auto. assert (false = true) by (apply CI; exists a; auto). discriminate. }
+  assert (NJ : ~ In j (t_jobs t)) by (apply set_mem_false; auto).
+  destruct t as [acts jobs closed]. cbn [t_acts t_jobs t_closed] in *. f_equal. f_equal.
+  - apply filter_all. intros a Ha. rewrite (NA a Ha). reflexivity.
+  - unfold set_remove. apply filter_all. intros x Hx. apply negb_true_iff, Nat.eqb_neq. intros ->. auto.
+Qed.
+
 (* ================================================================== the multi-slot machines only reach single-value histories *)
 Fixpoint sfold (ss : list slot) (ops : list sop) : list slot :=
   match ops with
@@ -1066,8 +1121,9 @@ Qed.
 Lemma sstep_reachable c ss o ss' r k :
   Forall (treachable c) ss -> sstep ss o = Some (ss', r, k) -> Forall (treachable c) ss'.
 Proof.
-  intros F H. destruct o as [k0 o|k0 mode|k0 v]; cbn in H; destruct (nth_error ss k0) as [s|] eqn:E; try discriminate;
-    assert (Rs : treachable c s) by (rewrite Forall_forall in F; apply F; eapply nth_error_In; eauto).
+  intros F H. destruct o as [k0 o|k0 mode|k0 v|k0 w j]; cbn in H; destruct (nth_error ss k0) as [s|] eqn:E; try discriminate;
+    assert (Rs : treachable c s) by (rewrite Forall_forall in F; apply F; eapply nth_error_In; eauto);
+    [| | |inversion H; subst; auto].
   - destruct (tstep (s_tour s) o) as [[t' r']|] eqn:S; [|discriminate]. inversion H; subst.
     apply set_nth_Forall; auto. destruct Rs as [ops Ho]. exists (ops ++ [o]). rewrite trun_snoc, Ho, S. reflexivity.
   - inversion H; subst. apply Forall_app. split; auto.
